@@ -52,6 +52,79 @@ CHECKS.update({
             "2/C06"),
 })
 
+SCHED = ("Preemption points are executed line starts of library code (sys.monitoring LINE); stdlib calls are atomic "
+         "blocks; locks are cooperative shims installed while the library is imported. ")
+CHECKS.update({
+    "C07": ("fault_enumeration", "runtime monitoring: outside-writer fault enumeration with expected-outcome table + audit-hook write monitor",
+            "E2+E3",
+            "All assignments of {modified, read-only, untouched} x {changed before / after first buffered access, never} to "
+            "1-3 files (sampled for 4-5), 5 flush triggers, both strategies; error types and file sets, outside content intact, "
+            "clean files written, read-only files never written, buffer/capacity/collections sane afterwards.",
+            "after the first conflict error the program does not touch the conflicting file again. " + BASE, "2/C07"),
+    "C08": ("fault_enumeration", "runtime monitoring: fork-based crash injection at every line, file-system event and write prefix",
+            "E5+E2",
+            "One forked child per crash point (library LINE k, before/after audited fs event j, RLIMIT_FSIZE byte prefix n) for "
+            "every save scenario x atomic configuration; each file must be wholly old or wholly new and open in a fresh object; "
+            "negative control must tear; unserialisable content leaves the file byte-identical.",
+            "process-kill semantics (page cache survives), not power loss. " + BASE, "2/C08"),
+    "C09": ("exploration", "runtime monitoring: deterministic line-level scheduler + linearizability checker over recorded histories",
+            "E4",
+            "Small writer programs on 6 handle topologies; full single-delay sweep per thread (+ multi-delay/random in thorough); "
+            "every history checked against the plain model for linearizability, deadlock, leaked locks.",
+            SCHED + BASE, "2/C09"),
+    "C10": ("fault_enumeration", "runtime monitoring: fault injection (audit-hook EIO, EFBIG, corrupt content, rejected values) + logical lock-state inspection + scheduler deadlock search",
+            "E4+E5",
+            "Every op x class x buffering mode x fault point; lock shims inspected after the faulty thread finished, second thread "
+            "must be able to run; delay sweeps over programs mixing collection/buffer/class locks; all orders of filename re-pointing.",
+            SCHED + "faults only where load/save/validation can really fail. " + BASE, "2/C10"),
+    "C11": ("exploration", "runtime monitoring: exhaustive invalid-input grid with memory/resource walkers",
+            "E1+E2",
+            "Complete grid class x entry point x target position x forbidden item kind x position inside the argument; rejection "
+            "class, in-memory tree walk and independent resource read after every attempt.",
+            FAKES + "Zarr: only non-str keys asserted. " + BASE, "2/C11"),
+    "C12": ("exploration", "runtime monitoring: exhaustive-small + random round-trip differential through a fresh object",
+            "E1+E2",
+            "All JSON trees up to a node bound over boundary scalars plus random deep trees through every entry point of all 18 "
+            "classes; fresh-object read and independent resource read compared type-strictly.",
+            FAKES + "server-side limits not emulated. " + BASE, "2/C12"),
+    "C13": ("exploration", "runtime monitoring: deterministic scheduler inside buffered contexts + per-file linearizability",
+            "E4",
+            "Buffered mutator programs inside buffer_backend(capacity) incl. flush-forcing capacities, 4 topologies, both "
+            "strategies; delay sweeps; per-file serializability after exit, no buffer errors, size back to 0.",
+            SCHED + BASE, "2/C13"),
+    "C14": ("exploration", "runtime monitoring: deterministic scheduler with reader threads + linearizability incl. reads",
+            "E4",
+            "Reader next to writer(s) on T2/T1/T1c topologies, unbuffered and buffered; reads must be placeable between call and "
+            "return. own_tree strata have zero tolerance; shared_tree strata carry known finding D13.",
+            SCHED + BASE, "2/C14"),
+    "C15": ("exploration", "runtime monitoring: accounting invariant at quiescent points (public API + hooked-state peek)",
+            "E1",
+            "Programs with nested contexts, capacity overrides and set_buffer_capacity over 1-4 files; after every call: size <= "
+            "capacity, 0 when unbuffered, exact value (no-forcing stratum), recomputed from observed buffer membership (forcing "
+            "stratum), capacity restored at backend exits, nothing lost.",
+            "layer (c) peeks Class._buffer read-only; degrades to (a)+(b) if unavailable. " + BASE, "2/C15"),
+    "C16": ("exploration", "runtime monitoring: snapshot / hostile-mutation / re-snapshot aliasing probes",
+            "E1+E2",
+            "Arguments, results of ()/values()/items(), popped and deleted children, cross-assigned nodes: every reachable container "
+            "is mutated afterwards; collection and resource must equal the snapshot.",
+            FAKES + BASE, "2/C16"),
+    "C17": ("exploration", "runtime monitoring: audit-hook write monitor + stat/hash snapshots + fake-store write counters",
+            "E3",
+            "Read-only programs with arbitrary context nesting on existing and missing resources for all 18 classes; no write-class "
+            "event, identical (inode,size,mtime,sha256), nothing created, counters unchanged.",
+            FAKES + BASE, "2/C17"),
+    "C18": ("exploration", "runtime monitoring: tree type walker after every step + attribute/item twin-program differential",
+            "E1",
+            "Family closure walked after every step of C02-style histories; attribute syntax vs item syntax on twin resources for all "
+            "key classes and depths; protected/method/dunder names through item access; instance attributes subset of _PROTECTED_KEYS.",
+            FAKES + BASE, "2/C18"),
+    "C19": ("exploration", "runtime monitoring: warm-process vs fresh-interpreter differential over permuted histories",
+            "E1",
+            "Every probe outcome in warm workers fed random permutations of a ~65-value pool (incl. numpy instance-dependent types) "
+            "is compared with the outcome in a fresh interpreter per value; all cold pair orders of instance-dependent values.",
+            "numpy from the offline wheelhouse. " + BASE, "2/C19"),
+})
+
 PENDING = {}
 
 
